@@ -25,7 +25,7 @@ const HEADER_MENU: [(&str, &str); 13] = [
     ("X-Custom", "v1"), ("x-custom", "v2"), ("Accept", "a, b"), ("Accept", "c"),
     ("X-Empty", ""), ("X-Sp", "a b: c"), ("Connection", "close"), ("Cookie", "a=1"), ("Cookie", "b=2"),
 ];
-const TARGET_MENU: [&str; 12] = ["/", "/a", "/a/", "/a/b", "/a?x=1", "/a?x=1&y=%20", "/a?", "/%41", "/a%2Fb", "/%C3%A9", "/a?k=%C3%A9&e=", "/%FF"];
+const TARGET_MENU: [&str; 13] = ["/", "/a", "/a/", "/a/b", "/a?x=1", "/a?x=1&y=%20", "/a?", "/%41", "/a%2Fb", "/%C3%A9", "/a?k=%C3%A9&e=", "/%FF", "/a?t=YQ==&n=/b?c=d"];
 
 fn header_selections(max: usize, menu: usize) -> Vec<Vec<usize>> {
     let mut out = vec![vec![]];
@@ -60,6 +60,10 @@ fn bodies(head_len_without_cl: usize, full: bool) -> Vec<Vec<u8>> {
         if n > 0 { if n < 100 { n += 1 } v.push((0..n).map(|i| b'a' + (i % 26) as u8).collect()); }
     }
     if full { v.push((0..2048).map(|i| b'A' + (i % 26) as u8).collect()); v.push(b"a\0b".to_vec()); }
+    // "bodies of any ... content": a payload is opaque - bytes that are not UTF-8 (arriving in the same read as the head), and
+    // text whose multi-byte characters lie across the end of the buffer whatever the parity of the head length
+    v.push(b"\xff\xd8\xff\xe0\x00\x10JFIF\x80".to_vec());
+    for pad in [0usize, 1] { let mut t = vec![b'x'; pad]; for _ in 0..600 { t.extend_from_slice("\u{e9}".as_bytes()) } v.push(t); }
     v
 }
 
@@ -380,7 +384,7 @@ fn compare_fields(ctx: &mut Ctx, r: &RefRequest, f: &Fields, edit_feature: &str,
 
 fn bases(full: bool) -> Vec<Base> {
     let methods: Vec<&'static str> = if full { METHODS.to_vec() } else { vec!["GET", "POST", "HEAD"] };
-    let targets: Vec<&str> = if full { TARGET_MENU.to_vec() } else { TARGET_MENU.iter().copied().filter(|t| ["/", "/a/", "/a?x=1&y=%20", "/a?", "/a%2Fb", "/%C3%A9", "/%FF"].contains(t)).collect() };
+    let targets: Vec<&str> = if full { TARGET_MENU.to_vec() } else { TARGET_MENU.iter().copied().filter(|t| ["/", "/a/", "/a?x=1&y=%20", "/a?", "/a%2Fb", "/%C3%A9", "/%FF", "/a?t=YQ==&n=/b?c=d"].contains(t)).collect() };
     let sels = header_selections(if full { 3 } else { 2 }, HEADER_MENU.len());
     let mut out = vec![];
     for m in &methods { for t in &targets { for s in &sels {
@@ -434,7 +438,7 @@ pub fn run(ctx: &mut Ctx) {
     }
     ctx.extra.insert("sum_dev0".into(), json!(dev_counts[0])); ctx.extra.insert("sum_dev1".into(), json!(dev_counts[1])); ctx.extra.insert("sum_dev2".into(), json!(dev_counts[2]));
     ctx.extra.insert("rule".into(), json!("case = byte string presented as the first read of a fresh connection; deviation 0 = product of menus (methods x targets x ordered header selections x bodies incl. bodies ending exactly at / one past the 1 KiB buffer, and heads ending within one byte of it); deviation 1 = one structural edit (36 kinds) or one truncation point; deviation 2 = pairs; non-trivial = every case (each is classified by the reference parser and compared); collision = the input is malformed/incomplete, or well-formed with headers or a body (the paths on which lookups, joins and payload slicing happen)"));
-    ctx.extra.insert("bounds".into(), json!({"methods": if quick { 3 } else { 7 }, "targets": if quick { 7 } else { TARGET_MENU.len() }, "header_menu": HEADER_MENU.len(), "header_lines": if quick { "0..2" } else { "0..3" },
+    ctx.extra.insert("bounds".into(), json!({"methods": if quick { 3 } else { 7 }, "targets": if quick { 8 } else { TARGET_MENU.len() }, "header_menu": HEADER_MENU.len(), "header_lines": if quick { "0..2" } else { "0..3" },
         "structural_edits": STRUCTURAL.len(), "deviation_completed": if quick { "1 (on every 2nd base), 0 on all" } else { "1 on all bases, 2 on every 23rd base" }}));
     ctx.traces_validated = ctx.transitions;
     ctx.sample(|| json!({"input": "GET /a?x=1 HTTP/1.1\\r\\nHost: h.example\\r\\n\\r\\n", "deviation": "none"}));
